@@ -37,6 +37,10 @@ Definition run_wlgen (tbl : list (bytes * bytes)) (b : budget) (r : wl_recipe) (
   : outcome (list token * wl_entropy) * N :=
   run_src (wl_generate (title_of tbl) b r) src.
 
+(** one call of a separator function: value, reported entropy, bytes consumed *)
+Definition run_sep (b : budget) (s : sep_fun) (src : source) : outcome (bytes * option entropy) * N :=
+  run_src (fmap Done (sep_call b s)) src.
+
 Definition run_new_word_list (tbl : list (bytes * bytes)) (emit : option (list bytes)) (l : list bytes) :=
   new_word_list (title_of tbl) emit l.
 
@@ -47,7 +51,7 @@ Extraction "model.ml"
   run_draw run_src explode
   run_chargen recipe_report char_entropy alphabet_string recipe_count sp_num sp_den char_generate_diag char_entropy_diag
   mkCR mkBudget Z.of_N roundtrip_report tokenize Tok
-  run_wlgen run_new_word_list wl_generate_diag cap_of_string mkWLR mkWL
+  run_wlgen run_sep sep_diag run_new_word_list wl_generate_diag cap_of_string mkWLR mkWL
   run_history mkCO OChar OWL SetChar SetWL Generate Entropy Alphabet SuccessProb
   render_stream Stdout Log
   SFNone SFDigits1 SFDigits2 SFDigitsNoAmbiguous1 SFDigitsNoAmbiguous2 SFSymbols SFDigitsSymbols.
